@@ -2,6 +2,9 @@ import DracoModel.Spec
 import DracoModel.SeqDecoder
 import DracoModel.SeqEncoder
 import DracoProofs.SeqGeometry
+import DracoProofs.SeqRows
+import DracoProofs.SpecCheck
+import DracoProofs.OctaFloat
 /-
   C01 — encode/decode round trip, composed and machine checked for the SEQUENTIAL methods
   (`POINT_CLOUD_SEQUENTIAL_ENCODING`, `MESH_SEQUENTIAL_ENCODING`), against the decoder model
@@ -33,9 +36,12 @@ import DracoProofs.SeqGeometry
       ≤ 255 components, unique id < 2^32, fewer than 2^32 attributes,
     * explicitly configured quantization parameters are float32 bit patterns,
     * metadata is well formed (`GeometryMetadata.WF'`, C11),
-    * for normals coded by the normal encoder: the float oracle hypothesis `octaRowOK`
-      (|first rounded octahedral coordinate| ≤ center value) — evaluated on every correspondence
-      case by the driver op; not provable in Lean where `Float` operations are opaque.
+    * for normals coded by the normal encoder: `octaEntryOK` — the octahedral coordinates the float code
+      computed are canonical points of the grid; implied by the float oracle hypothesis `octaRowOK`
+      (|first rounded octahedral coordinate| ≤ center value, `octaEntryOK_of_rowOK`), which in turn
+      holds for every float evaluation obeying the standard rounding model (`octa_round_in_range`,
+      section 8) — evaluated on every correspondence case by the driver op; not provable for the
+      concrete `Float` instance in Lean, whose operations are opaque.
   NOT hypotheses: anything about the values of integer attributes (uint32 values above INT32_MAX make
   the encoder FAIL, `encodeGeometry = none`), value ranges (ranges ≥ 2^31-1 switch the prediction
   off), prediction scheme options, speeds, quantization bit counts (invalid ones make the encoder fail).
@@ -404,5 +410,270 @@ example : ∃ bs st, encodeGeometry sampleChoices sampleMesh none sampleMeshOpts
   obtain ⟨st, h1, h2⟩ := mesh_seq_roundtrip sampleChoices sampleMesh none sampleMeshOpts bs rfl
     sampleMesh_ok (fun m h => by cases h) hbs [42]
   exact ⟨bs, st, hbs, h1, h2, rfl⟩
+
+/-! ## 5. decoding with skipped attribute transforms (C10 on encoder outputs) -/
+
+/-- **`seq_skip_roundtrip`**: decoding an encoder-produced sequential stream with the attribute
+    transforms of ANY set `S` of attribute types skipped (`SetSkipAttributeTransform`) returns
+    `expectedSkip S g opts`: attributes of the integer / quantization / normal encoders whose type is
+    in `S` come back as int32 attributes holding the portable values (quantized values, octahedral
+    coordinates, or the integers themselves) with the transform data attached; everything else —
+    points, faces, the other attributes, metadata, consumed bytes — is as in the ordinary decode. -/
+theorem seq_skip_roundtrip (S : List Nat) (ch : Choices) (g : Geometry) (md : Option GeometryMetadata)
+    (opts : EncOpts) (bs : Bytes) (hok : GeomOK g opts) (hmd : ∀ m, md = some m → m.WF')
+    (henc : encodeGeometry ch g md opts = some bs) (extra : Bytes) :
+    ∃ st, decodeGeometry { skip := S } { rest := bs ++ extra } = (some ⟨expectedSkip S g opts, md⟩, st) ∧
+      st.rest = extra := by
+  obtain ⟨encs, hf⟩ := encodeGeometry_full ch g md opts bs henc
+  obtain ⟨st, h1, h2, _⟩ := (runs_decodeStreamWithSkip Eb.decodeEdgebreaker Kd.decodeKdGeometry
+    { skip := S } ch g md opts bs encs hok hmd hf).run { rest := bs ++ extra } extra rfl rfl
+  rw [expectedGeometrySkip_eq S ch g md opts bs encs hf] at h1
+  exact ⟨st, h1, h2⟩
+
+/-- non-vacuity: `samplePC` decoded with the POSITION transform skipped: the int16 position attribute
+    comes back as int32 values -1, 5, 256 -/
+example : ∃ st, decodeGeometry { skip := [0] } { rest :=
+      [68, 82, 65, 67, 79, 2, 3, 0, 0, 0, 0, 3, 0, 0, 0, 1, 2, 4, 9, 1, 0, 7, 0, 3, 1, 0, 0, 0, 1,
+       5, 6, 7, 8, 1, 2, 3, 4, 5, 6, 7, 8, 0, 1, 0, 1, 1, 12, 13, 255, 255, 255, 255, 0, 1, 0, 0] ++ [9] }
+      = (some ⟨expectedSkip [0] samplePC sampleOpts, none⟩, st) ∧ st.rest = [9] :=
+  seq_skip_roundtrip [0] sampleChoices samplePC none sampleOpts _ samplePC_ok
+    (fun m h => by cases h) samplePC_encodes [9]
+
+example : (expectedSkip [0] samplePC sampleOpts).atts.map (fun a => (a.dataType, a.values)) =
+    [(9, [5, 6, 7, 8, 1, 2, 3, 4, 5, 6, 7, 8]),
+     (5, [255, 255, 255, 255, 5, 0, 0, 0, 0, 1, 0, 0])] := by decide +kernel
+
+/-- skipping nothing is the ordinary decode -/
+theorem expectedSkip_nil (g : Geometry) (opts : EncOpts) : expectedSkip [] g opts = expected g opts := by
+  unfold expectedSkip expected
+  congr 1
+  apply List.map_congr_left
+  intro ia _
+  simp [expectedSkipAttributeOf]
+
+/-- attributes that are not skipped (generic encoder, or type not in `S`) are identical to the
+    ordinary decode -/
+theorem seq_skip_unskipped_identical (S : List Nat) (opts : EncOpts) (n i : Nat) (a : Attribute)
+    (h : encoderType a (opts.att i) = 0 ∨ S.contains a.attType = false) :
+    expectedSkipAttributeOf S opts n i a = expectedAttributeOf opts n i a := by
+  unfold expectedSkipAttributeOf
+  rcases h with h | h
+  · simp [h]
+  · simp only [h, Bool.and_false, Bool.false_eq_true, if_false]
+
+/-- **applying the described transform to a skipped attribute gives exactly the ordinary decode**:
+    for every attribute of an encoded geometry whose transform was skipped, reinterpreting its values
+    as int32 and applying the inverse transform given by the attached transform data
+    (`applySkippedTransform`: dequantization / octahedral decoding / for plain integer attributes
+    the narrowing cast to the original type) reproduces the values of the ordinary decode bit for
+    bit; the descriptor keeps attribute type and unique id, the point map is the identity. -/
+theorem seq_skip_transform_applies (S : List Nat) (ch : Choices) (g : Geometry)
+    (md : Option GeometryMetadata) (opts : EncOpts) (bs : Bytes) (hok : GeomOK g opts)
+    (henc : encodeGeometry ch g md opts = some bs) (i : Nat) (a : Attribute)
+    (hi : g.atts[i]? = some a) (hty : encoderType a (opts.att i) ≠ 0)
+    (hs : S.contains a.attType = true) :
+    let s := expectedSkipAttributeOf S opts g.numPoints i a
+    let d := expectedAttributeOf opts g.numPoints i a
+    applySkippedTransform a.dataType s = d.values ∧
+      s.attType = d.attType ∧ s.uniqueId = d.uniqueId ∧ s.numValues = d.numValues ∧
+      s.map = d.map ∧ s.dataType = Generated.DT_INT32.toNat := by
+  intro s d
+  obtain ⟨encs, hf⟩ := encodeGeometry_full ch g md opts bs henc
+  obtain ⟨e, _, he⟩ := encodeAttribute_of_index ch g md opts bs encs hf i a hi
+  have f := attFacts ch opts g.numPoints i a e hok.points (hok.atts i a hi) he
+  obtain ⟨hty', _⟩ := portableOf_eq ch opts g.numPoints i a e he
+  have hs' : s = expectedAttributeSkip S g.numPoints a e :=
+    (expectedAttributeSkip_eq S ch opts g.numPoints i a e he).symm
+  have hd' : d = expectedAttribute g.numPoints a e :=
+    (expectedAttribute_eq ch opts g.numPoints i a e he).symm
+  have hne : e.encType ≠ 0 := by rw [hty']; exact hty
+  refine ⟨by rw [hs', hd']; exact applySkippedTransform_spec S g.numPoints a e f hne hs, ?_⟩
+  have hne' : (e.encType != 0) = true := by simpa using hne
+  rw [hs', hd']
+  simp only [expectedAttributeSkip, hne', hs, Bool.and_self, if_true, expectedAttribute,
+    AttDesc.toAttribute, descOf, and_self]
+
+/-! ## 6. corollaries cited by other properties -/
+
+/-- **C06 (trailing bytes)**: the decode result of an encoder-produced sequential stream does not
+    depend on what follows the stream, and exactly `bs.length` bytes are consumed. -/
+theorem seq_trailing_bytes_ignored (ch : Choices) (g : Geometry) (md : Option GeometryMetadata)
+    (opts : EncOpts) (bs : Bytes) (hok : GeomOK g opts) (hmd : ∀ m, md = some m → m.WF')
+    (henc : encodeGeometry ch g md opts = some bs) :
+    ∃ r : DecodeResult, ∀ extra : Bytes, ∃ st,
+      decodeGeometry {} { rest := bs ++ extra } = (some r, st) ∧
+      (bs ++ extra).length - st.rest.length = bs.length ∧ st.rest = extra := by
+  refine ⟨⟨expected g opts, md⟩, fun extra => ?_⟩
+  obtain ⟨st, h1, h2⟩ := seq_roundtrip ch g md opts bs hok hmd henc extra
+  exact ⟨st, h1, by rw [h2]; simp, h2⟩
+
+def sampleStream : Bytes :=
+  [68, 82, 65, 67, 79, 2, 3, 0, 0, 0, 0, 3, 0, 0, 0, 1, 2, 4, 9, 1, 0, 7, 0, 3, 1, 0, 0, 0, 1,
+   5, 6, 7, 8, 1, 2, 3, 4, 5, 6, 7, 8, 0, 1, 0, 1, 1, 12, 13, 255, 255, 255, 255, 0, 1, 0, 0]
+
+theorem samplePC_encodes' : encodeGeometry sampleChoices samplePC none sampleOpts = some sampleStream :=
+  samplePC_encodes
+
+example : ∃ r : DecodeResult, ∀ extra : Bytes, ∃ st,
+    decodeGeometry {} { rest := sampleStream ++ extra } = (some r, st) ∧
+      (sampleStream ++ extra).length - st.rest.length = sampleStream.length ∧ st.rest = extra :=
+  seq_trailing_bytes_ignored sampleChoices samplePC none sampleOpts sampleStream samplePC_ok
+    (fun m h => by cases h) samplePC_encodes'
+
+/-- **C09 (counts)**: the decoded geometry has the input's number of points, its faces (a point
+    cloud has none) and its number of attributes. -/
+theorem seq_counts (ch : Choices) (g : Geometry) (md : Option GeometryMetadata)
+    (opts : EncOpts) (bs : Bytes) (hok : GeomOK g opts) (hmd : ∀ m, md = some m → m.WF')
+    (henc : encodeGeometry ch g md opts = some bs) (extra : Bytes) :
+    ∃ r st, decodeGeometry {} { rest := bs ++ extra } = (some r, st) ∧
+      r.geometry.isMesh = g.isMesh ∧ r.geometry.numPoints = g.numPoints ∧
+      r.geometry.faces = (if g.isMesh then g.faces else []) ∧
+      r.geometry.atts.length = g.atts.length ∧
+      ∀ a ∈ r.geometry.atts, a.numValues = g.numPoints ∧ a.map = none := by
+  obtain ⟨st, h1, _⟩ := seq_roundtrip ch g md opts bs hok hmd henc extra
+  refine ⟨_, st, h1, rfl, rfl, rfl, ?_, ?_⟩
+  · simp only [expected, List.length_map]
+    have : ∀ (l : List Attribute) k, (zipIdxFrom k l).length = l.length := by
+      intro l; induction l with
+      | nil => intro _; rfl
+      | cons a as ih => intro k; simp [zipIdxFrom, ih]
+    exact this _ _
+  · intro a ha
+    simp only [expected, List.mem_map] at ha
+    obtain ⟨ia, _, rfl⟩ := ha
+    exact ⟨rfl, rfl⟩
+
+example : ∃ r st, decodeGeometry {} { rest :=
+      [68, 82, 65, 67, 79, 2, 3, 0, 0, 0, 0, 3, 0, 0, 0, 1, 2, 4, 9, 1, 0, 7, 0, 3, 1, 0, 0, 0, 1,
+       5, 6, 7, 8, 1, 2, 3, 4, 5, 6, 7, 8, 0, 1, 0, 1, 1, 12, 13, 255, 255, 255, 255, 0, 1, 0, 0] ++ [] }
+      = (some r, st) ∧ r.geometry.isMesh = false ∧ r.geometry.numPoints = 3 := by
+  obtain ⟨r, st, h1, h2, h3, _⟩ := seq_counts sampleChoices samplePC none sampleOpts _ samplePC_ok
+    (fun m h => by cases h) samplePC_encodes []
+  exact ⟨r, st, h1, h2, h3⟩
+
+/-- **C20 / C01 (order)**: the sequential methods keep point order and face order — the faces come
+    back as they were, and for every attribute `j` the decoded values are, point by point in the
+    order `0 … numPoints-1`, the value rows of the input's points (`pointRows`: `GetValue(mapped_index(p))`)
+    with `transformRow` applied (identity / dequantize∘quantize / octahedral decode∘encode); the decoded
+    attribute has the identity point map and keeps its unique id. -/
+theorem seq_order_preserved (ch : Choices) (g : Geometry) (md : Option GeometryMetadata)
+    (opts : EncOpts) (bs : Bytes) (hok : GeomOK g opts) (hmd : ∀ m, md = some m → m.WF')
+    (henc : encodeGeometry ch g md opts = some bs) (extra : Bytes) :
+    ∃ r st, decodeGeometry {} { rest := bs ++ extra } = (some r, st) ∧
+      r.geometry.faces = (if g.isMesh then g.faces else []) ∧
+      ∀ j a, g.atts[j]? = some a → ∃ d, r.geometry.atts[j]? = some d ∧
+        d.uniqueId = a.uniqueId ∧ d.map = none ∧ d.numValues = g.numPoints ∧
+        d.values = ((pointRows a g.numPoints).map (transformRow opts j a)).flatten := by
+  obtain ⟨st, h1, _⟩ := seq_roundtrip ch g md opts bs hok hmd henc extra
+  refine ⟨_, st, h1, rfl, fun j a hj => ?_⟩
+  have ha := hok.atts j a hj
+  refine ⟨_, expected_att g opts j a hj, rfl, rfl, rfl, ?_⟩
+  exact expectedAttributeOf_rowwise opts g.numPoints j a (ha.numValues_pos hok.points).2.1 ha.explicit
+
+/-- non-vacuity: the unquantized float attribute of `samplePC` (explicit point map 1,0,1) comes back as
+    the rows of points 0, 1, 2 -/
+example : ∃ r st, decodeGeometry {} { rest := sampleStream ++ [] } = (some r, st) ∧
+    ∃ d, r.geometry.atts[0]? = some d ∧ d.values = [5, 6, 7, 8, 1, 2, 3, 4, 5, 6, 7, 8] := by
+  obtain ⟨r, st, h1, _, h3⟩ := seq_order_preserved sampleChoices samplePC none sampleOpts sampleStream
+    samplePC_ok (fun m h => by cases h) samplePC_encodes' []
+  obtain ⟨d, hd, _, _, _, hv⟩ := h3 0 _ rfl
+  exact ⟨r, st, h1, d, hd, by rw [hv]; decide +kernel⟩
+
+/-! ## 7. the executable specification RoundTripOK accepts the proved decode result -/
+
+/-- the string-valued check evaluated by the driver on the implementation's outputs (`Spec.check`) says
+    `"ok"` exactly when the Boolean relation `Spec.checkCore` (RoundTripOK) holds -/
+theorem spec_check_ok_iff (cls : Spec.MethodClass) (req : Spec.QuantReq) (g g' gs : Geometry) :
+    Spec.check cls req g g' gs = "ok" ↔ Spec.checkCore cls req g g' gs = true :=
+  check_ok_iff cls req g g' gs
+
+example : Spec.check .sequential [] samplePC samplePC samplePC = "ok" :=
+  (spec_check_ok_iff _ _ _ _ _).2 (by decide +kernel)
+
+/-- **RoundTripOK accepts `expected g opts`** (sequential class): with the quantization request of the
+    options (`quantReq`) and the all-transforms-skipped decode `expectedSkip allTypes g opts` as the
+    source of the declared transforms.  Hypotheses beyond the domain: distinct unique ids (matching
+    is by id; the check answers `skip` otherwise) and a point cloud carries no faces. -/
+theorem spec_accepts_expected (ch : Choices) (g : Geometry) (md : Option GeometryMetadata)
+    (opts : EncOpts) (bs : Bytes) (hok : GeomOK g opts)
+    (hnd : (g.atts.map (·.uniqueId)).Nodup) (hpc : g.isMesh = false → g.faces = [])
+    (henc : encodeGeometry ch g md opts = some bs) :
+    Spec.check .sequential (quantReq g opts) g (expected g opts) (expectedSkip allTypes g opts) = "ok" :=
+  (check_ok_iff _ _ _ _ _).2 (checkCore_expected ch g md opts bs hok hnd hpc henc)
+
+/-- **The corollary the checks rely on**: for an encoder-produced sequential stream, the ordinary
+    decode and the all-transforms-skipped decode (both of the stream followed by arbitrary bytes)
+    exist, and the executable specification RoundTripOK — the very function the checks evaluate on the
+    implementation's outputs — accepts them. -/
+theorem seq_roundtrip_ok (ch : Choices) (g : Geometry) (md : Option GeometryMetadata)
+    (opts : EncOpts) (bs : Bytes) (hok : GeomOK g opts) (hmd : ∀ m, md = some m → m.WF')
+    (hnd : (g.atts.map (·.uniqueId)).Nodup) (hpc : g.isMesh = false → g.faces = [])
+    (henc : encodeGeometry ch g md opts = some bs) (extra : Bytes) :
+    ∃ r rs st st',
+      decodeGeometry {} { rest := bs ++ extra } = (some r, st) ∧
+      decodeGeometry { skip := allTypes } { rest := bs ++ extra } = (some rs, st') ∧
+      Spec.check .sequential (quantReq g opts) g r.geometry rs.geometry = "ok" := by
+  obtain ⟨st, h1, _⟩ := seq_roundtrip ch g md opts bs hok hmd henc extra
+  obtain ⟨st', h2, _⟩ := seq_skip_roundtrip allTypes ch g md opts bs hok hmd henc extra
+  exact ⟨_, _, st, st', h1, h2, spec_accepts_expected ch g md opts bs hok hnd hpc henc⟩
+
+/-- non-vacuity on `samplePC` -/
+example : ∃ r rs st st',
+    decodeGeometry {} { rest := sampleStream ++ [1] } = (some r, st) ∧
+    decodeGeometry { skip := allTypes } { rest := sampleStream ++ [1] } = (some rs, st') ∧
+    Spec.check .sequential (quantReq samplePC sampleOpts) samplePC r.geometry rs.geometry = "ok" :=
+  seq_roundtrip_ok sampleChoices samplePC none sampleOpts sampleStream samplePC_ok (fun m h => by cases h)
+    (by decide) (fun _ => rfl) samplePC_encodes' [1]
+
+/-! ## 8. the hypothesis on normals
+
+  The round-trip theorems assume `octaEntryOK` for every normal (the octahedral coordinates computed by the
+  float code are a canonical grid point).  `octaEntryOK_of_rowOK` derives it from `octaRowOK` (the first
+  rounded coordinate is at most `center_value_` in magnitude), and `octa_round_in_range` proves `octaRowOK`
+  for EVERY evaluation of the `double` operations that obeys the standard rounding model — the executable
+  model being the `Float` instance of the same generic function (`octa_float_is_generic`).  What remains
+  unproved is only that Lean's opaque `Float` (= the hardware's binary64) obeys that model. -/
+
+/-- the executable float code of the model is the `Float` instance of the generic function -/
+theorem octa_float_is_generic (t : OctaT) (v : Float32 × Float32 × Float32) :
+    Octa.floatVecRound t v = Octa.floatVecRoundG t.center v.1.toFloat v.2.1.toFloat v.2.2.toFloat :=
+  Octa.floatVecRound_eq_generic t v
+
+/-- under the standard rounding model (unit roundoff `u ≤ 2^-40`, binary64: `2^-53`) the first rounded
+    coordinate of `FloatVectorToQuantizedOctahedralCoords` has magnitude at most `center_value_`, for
+    every finite input and every `center_value_ < 2^29` (2..30 quantization bits) -/
+theorem octa_round_in_range (ops : DoubleOps ℚ) (u : ℚ) (hu0 : 0 ≤ u) (hu : u ≤ 1 / 2 ^ 40)
+    (hm : Octa.DoubleModel ops u) (c : Int) (hc1 : 1 ≤ c) (hc : c < 2 ^ 29) (x y z : ℚ) :
+    iabs (@Octa.floatVecRoundG ℚ ops c x y z).1 ≤ c :=
+  Octa.octa_round_in_range ops u hu0 hu hm c hc1 hc x y z
+
+/-- exact rational arithmetic: a model with `u = 0` -/
+@[reducible] def exactDoubleOps : DoubleOps ℚ where
+  abs a := |a|
+  add a b := a + b
+  mul a b := a * b
+  div a b := a / b
+  ofInt k := (k : ℚ)
+  floorToInt a := ⌊a⌋
+  lt a b := decide (a < b)
+  zero := 0
+  one := 1
+  half := 1 / 2
+
+theorem exactDoubleOps_model : Octa.DoubleModel exactDoubleOps 0 :=
+  ⟨fun _ => rfl, fun a b => ⟨0, by simp, by show a + b = (a + b) * (1 + 0); ring⟩,
+   fun a b => ⟨0, by simp, by show a * b = (a * b) * (1 + 0); ring⟩,
+   fun a b _ => ⟨0, by simp, by show a / b = (a / b) * (1 + 0); ring⟩,
+   fun _ => rfl, fun _ => rfl, fun _ _ => rfl, rfl, rfl, rfl⟩
+
+/-- non-vacuity: center 7 (4 bits), the vector (1/3, -2/3, 2/3) -/
+example : iabs (@Octa.floatVecRoundG ℚ exactDoubleOps 7 (1 / 3) (-2 / 3) (2 / 3)).1 ≤ 7 :=
+  octa_round_in_range exactDoubleOps 0 (le_refl _) (by norm_num) exactDoubleOps_model 7 (by decide)
+    (by decide) _ _ _
+
+/-- the float oracle hypothesis implies the hypothesis of the round-trip theorems -/
+theorem octaEntryOK_of_octaRowOK (q : Nat) (t : OctaT) (ht : Octa.init q = some t) (row : Bytes)
+    (h : octaRowOK t row = true) : octaEntryOK t (octaRow t row) = true :=
+  octaEntryOK_of_rowOK t (Octa.init_wf ht).1 row h
 
 end Draco.C01
